@@ -30,7 +30,7 @@ ASSUMPTIONS = ['Fraction arithmetic is exact; returned mpf/mpc values are read f
                'e = deg*max(1,|z_i|)*err (Gershgorin factor deg; err is floored at 2^(1-p) by the library, which covers the final rounding of '
                'roots of size |z_i|), last term: evaluation noise at the working precision',
                'ordering predicate asserted for real-coefficient polynomials whose planted roots are simple and >= 2^-6 apart']
-LEVEL_TEXT = ('exploration: ~1.5*10^4 (quick) / ~1.2*10^5 (thorough) generated root-finding problems run on the real code; every returned '
+LEVEL_TEXT = ('exploration: ~1.5*10^4 (quick) / ~7*10^4 (thorough) generated root-finding problems run on the real code; every returned '
               'value is re-evaluated independently (exactly for polynomials), bracketing results compared with the bracket, mnewton '
               'results with the planted root, polyroots lists with the ordering predicate and the residual/error predicate')
 LEVEL_NOTE = ('inputs not generated are not covered; transcendental residuals rely on the reference release at high precision; '
@@ -40,7 +40,7 @@ SHARD_TIMEOUT = {'quick': 1800, 'thorough': 7200}
 
 NSHARDS = 16
 COUNTS = {'quick': {'solver': 280, 'bracket': 200, 'md': 48, 'mnewton': 256, 'polyroots': 64, 'multiplicity': 96},
-          'thorough': {'solver': 2400, 'bracket': 1600, 'md': 300, 'mnewton': 2000, 'polyroots': 500, 'multiplicity': 700}}
+          'thorough': {'solver': 1400, 'bracket': 1000, 'md': 200, 'mnewton': 1200, 'polyroots': 300, 'multiplicity': 450}}
 PRECS = [30, 36, 40, 53, 64, 80, 100, 113, 150, 185, 195, 200, 205, 250, 300]
 SCALAR_SOLVERS = ['newton', 'secant', 'mnewton', 'halley', 'muller', 'anewton']
 BRACKET_SOLVERS = ['bisect', 'illinois', 'pegasus', 'anderson', 'ridder']
